@@ -29,7 +29,47 @@ def swarm(rng, base, **over):
     return cfg
 
 
+def program_size(spec):
+    """Upper bound on the number of task instances a run of spec creates (static count)."""
+    T = len(spec["templates"])
+    memo = {}
+
+    def calls_in(node, acc):
+        if isinstance(node, list):
+            if node and node[0] == "call" and len(node) > 1 and isinstance(node[1], int):
+                acc.append(node[1])
+            for c in node:
+                calls_in(c, acc)
+
+    def size(i):
+        if i in memo:
+            return memo[i]
+        acc = []
+        calls_in(spec["templates"][i]["steps"], acc)
+        n = 1
+        for j in acc:
+            if i < j < T:
+                n += size(j)
+                if n > 10 ** 6:
+                    break
+        memo[i] = n
+        return n
+    return size(spec["root"]["tmpl"]) if T else 0
+
+
 def gen_program(rng, cfg):
+    cap = cfg.get("max_instances", 250)
+    for attempt in range(6):
+        spec = _gen_program(rng, cfg)
+        if program_size(spec) <= cap:
+            return spec
+        cfg = dict(cfg)
+        cfg["n_templates"] = max(1, cfg["n_templates"] * 2 // 3)
+        cfg["fanout"] = max(1, cfg["fanout"] - 1)
+    return spec
+
+
+def _gen_program(rng, cfg):
     T = cfg["n_templates"]
     templates = []
     for i in range(T):
